@@ -111,7 +111,7 @@ fn play_long(turns: u64, seed: u64) -> Result<(GameState, GameState, Value), Str
 }
 
 /// The operations the property names: query, clone, drop.
-fn exercise(g: GameState, mid: GameState) -> Value {
+fn exercise(g: GameState, mid: GameState, unwind: bool) -> Value {
     let before = vmstk_kb();
     let n_actions = g.valid_actions().len();
     let n_norep = g.valid_actions_no_rep().len();
@@ -134,6 +134,35 @@ fn exercise(g: GameState, mid: GameState) -> Value {
     let succ = g.take_action(&first);
     // finish the successor's turn by a pass if possible (appends to the shared history)
     let succ2 = if succ.valid_actions().contains(&Action::Pass) { Some(succ.take_action(&Action::Pass)) } else { None };
+    // a capture after the long capture-free stretch: the engine starts a fresh history inside
+    // take_action and lets go of the old one (the turn is continued for a few steps if no capturing
+    // step is offered right away)
+    let mut capture_taken = false;
+    let mut extra_steps = 0u32;
+    {
+        let mut cur = g.clone();
+        'search: for _ in 0..400 {
+            let acts = cur.valid_actions();
+            if acts.is_empty() || (cur.current_step() == 0 && cur.is_terminal().is_some()) {
+                break;
+            }
+            for a in &acts {
+                if cur.trapped_animal_for_action(a).is_some() {
+                    let after = cur.take_action(a);
+                    // the new state and its successors must be usable
+                    let _ = after.valid_actions().len();
+                    let _ = after.is_terminal();
+                    capture_taken = true;
+                    drop(after);
+                    break 'search;
+                }
+            }
+            // wander on: prefer steps of non-rabbit pieces, fall back to anything offered
+            let pick = acts.iter().find(|a| matches!(a, Action::Move(s, _) if cur.piece_board().piece_type_at_square(s).map_or(false, |p| p != Piece::Rabbit) && (extra_steps + s.index() as u32) % 3 != 0)).copied().unwrap_or(acts[(extra_steps as usize * 7 + 3) % acts.len()]);
+            cur = cur.take_action(&pick);
+            extra_steps += 1;
+        }
+    }
     let c2 = g.clone();
     drop(g); // not the last owner: c2, succ and succ2 still hold the list
     drop(succ);
@@ -144,9 +173,27 @@ fn exercise(g: GameState, mid: GameState) -> Value {
     // the older state is still fully usable, then releases the older half
     let mid_actions = mid.valid_actions().len();
     let mid_hist = mid.unwrap_play_phase().hash_history().len();
-    drop(mid);
+    // discard the last owner of the older half: plainly, or (unwind = true) while a thread that owns
+    // it is unwinding from a panic - an ordinary, catchable panic must stay one
+    let mut unwound = false;
+    if unwind {
+        let h = std::thread::Builder::new()
+            .stack_size(2 << 20)
+            .spawn(move || {
+                let owned = mid;
+                let n = owned.unwrap_play_phase().hash_history().len();
+                if n > 0 {
+                    std::panic::panic_any("deliberate panic while owning a long game");
+                }
+                drop(owned);
+            })
+            .unwrap();
+        unwound = h.join().is_err();
+    } else {
+        drop(mid);
+    }
     let after = vmstk_kb();
-    json!({"vmstk_before_kb": before, "vmstk_mid_kb": mid_vm, "vmstk_after_newer_half_kb": after_newer, "vmstk_after_kb": after, "valid_actions": n_actions, "valid_actions_no_rep": n_norep, "terminal": term, "can_pass": cp, "has_move": hm, "printed_len": text_len, "hash": format!("{:#018x}", hash), "eq_mid": eq, "history_len": hl, "history_iter_count": hcount, "history_head": hhead.map(|h| format!("{:#018x}", h)), "tail_len": tail_len, "mid_state_valid_actions": mid_actions, "mid_state_history_len": mid_hist})
+    json!({"vmstk_before_kb": before, "vmstk_mid_kb": mid_vm, "vmstk_after_newer_half_kb": after_newer, "vmstk_after_kb": after, "valid_actions": n_actions, "valid_actions_no_rep": n_norep, "terminal": term, "can_pass": cp, "has_move": hm, "printed_len": text_len, "hash": format!("{:#018x}", hash), "eq_mid": eq, "history_len": hl, "history_iter_count": hcount, "history_head": hhead.map(|h| format!("{:#018x}", h)), "tail_len": tail_len, "mid_state_valid_actions": mid_actions, "mid_state_history_len": mid_hist, "capture_after_long_stretch_taken": capture_taken, "extra_steps_before_capture": extra_steps, "dropped_during_unwinding": unwound})
 }
 
 /// A state whose history list has `n` entries, built with the public constructors (cheap way to
@@ -219,9 +266,11 @@ pub fn child(args: &[String]) -> i32 {
             }
         };
     }
+    let mode_owned = mode.to_string();
     let run = move || -> Result<Value, String> {
+        let mode = mode_owned.as_str();
         let (g, mid, mut info) = play_long(turns, seed)?;
-        let ex = exercise(g, mid);
+        let ex = exercise(g, mid, mode != "main");
         info["exercise"] = ex;
         Ok(info)
     };
@@ -349,6 +398,12 @@ pub fn c20(cfg: &Cfg) -> i32 {
             sink.max("longest_history_reached", j["history_len"].as_u64().unwrap_or(0));
             sink.add("engine_spot_checks_of_legality", j["spot_checks"].as_u64().unwrap_or(0));
             sink.distinct(mix(*l, mix(*seed, fnv(pname.as_bytes()) ^ fnv(mode.as_bytes()))));
+            if j["exercise"]["capture_after_long_stretch_taken"].as_bool() == Some(true) {
+                sink.count("runs_with_capture_after_long_stretch");
+            }
+            if j["exercise"]["dropped_during_unwinding"].as_bool() == Some(true) {
+                sink.count("runs_with_last_owner_dropped_during_unwinding");
+            }
             if *mode == "thread" {
                 sink.count("survival_runs_held");
             } else if *mode == "concurrent" {
@@ -405,9 +460,9 @@ pub fn c20(cfg: &Cfg) -> i32 {
     extra.insert("child_observations".into(), json!(obs));
     let rep = Report {
         evaluations_counter: "children_run",
-        rule: "W13: child processes play L legal capture-free turns from an open position (steps from valid_actions_no_rep(), repetition legality kept by the harness' exact position set and spot-checked against valid_actions() every 10 000 turns; hash_history().len() must equal L+1), then query (action lists, result, can_pass, has_move, printing, hash, ==, history len/iter/head/tail), clone, take_action + pass, and drop the state while a clone of the state at turn L/2 is still alive, then query and drop that older state (Debug formatting is not exercised: the derived Debug of a linked list is recursive by construction and is not one of the queries the property lists). Observer 1: the whole run on a thread with the default 2 MiB stack must exit 0. Observer 2: on the main thread with an unlimited stack the growth of VmStk over the query/clone/drop block at L = 400 000 must not exceed the growth at L = 1 000 by 128 kB. Observer 3: 2-4 threads that are the only owners of one long history drop it at the same instant (spin barrier): children with 300 000-entry histories on 2 MiB threads must survive, and drop probes must show no growth of the stack span between 500 and 4 000 nodes. Observers 1-2 and the children of 3 run in the monitor profile and in plain release. distinct_nontrivial = distinct (L, seed, profile, observer) child runs that completed.".into(),
+        rule: "W13: child processes play L legal capture-free turns from an open position (steps from valid_actions_no_rep(), repetition legality kept by the harness' exact position set and spot-checked against valid_actions() every 10 000 turns; hash_history().len() must equal L+1), then query (action lists, result, can_pass, has_move, printing, hash, ==, history len/iter/head/tail), clone, take_action + pass, and drop the state while a clone of the state at turn L/2 is still alive, then make a capture (the engine starts a fresh history and lets go of the old one inside take_action), then query that older state and discard it - in the thread-mode children while the owning 2 MiB thread unwinds from a deliberate panic (Debug formatting is not exercised: the derived Debug of a linked list is recursive by construction and is not one of the queries the property lists). Observer 1: the whole run on a thread with the default 2 MiB stack must exit 0. Observer 2: on the main thread with an unlimited stack the growth of VmStk over the query/clone/drop block at L = 400 000 must not exceed the growth at L = 1 000 by 128 kB. Observer 3: 2-4 threads that are the only owners of one long history drop it at the same instant (spin barrier): children with 300 000-entry histories on 2 MiB threads must survive, and drop probes must show no growth of the stack span between 500 and 4 000 nodes. Observers 1-2 and the children of 3 run in the monitor profile and in plain release. distinct_nontrivial = distinct (L, seed, profile, observer) child runs that completed.".into(),
         assumptions: vec!["'for all lengths' is restated as L up to 4*10^5 (quick) / 2*10^6 (thorough) plus no measurable stack growth between L = 10^3 and L = 4*10^5".into(), "a child that dies for another reason (OOM, external signal) makes the run inconclusive".into()],
-        floors: vec![floor("survival_runs_held", 0, 0), floor("vmstk_comparisons", 1, 1), floor("simultaneous_probe_drop_rounds", 500, 5000), floor("concurrent_drop_runs_held", 0, 0), floor("longest_history_reached", 400_001, 2_000_001)],
+        floors: vec![floor("survival_runs_held", 0, 0), floor("vmstk_comparisons", 1, 1), floor("simultaneous_probe_drop_rounds", 500, 5000), floor("concurrent_drop_runs_held", 0, 0), floor("runs_with_capture_after_long_stretch", 4, 8), floor("runs_with_last_owner_dropped_during_unwinding", 2, 4), floor("longest_history_reached", 400_001, 2_000_001)],
         level: "exploration",
         exhaustive: None,
         extra,
